@@ -131,6 +131,21 @@ CHECKS = {
             'Trusted: Lean kernel; json.dumps / json.loads are not modelled (contract loads(dumps x) = x). One known '
             'finding (datetime.date bounds).',
             'DESIGN.md 4 C09'),
+    'C08': ('Lean 4 theorems over a model of the SQL text and the shared constraint model + model/implementation correspondence',
+            'Kernel-checked theorems: (a) the SQL text built for SQLite - quoted column names, string literals and the '
+            'REGEXP predicate, whose formats are regenerated from drivers.py on every run and tied by tie_* theorems - reads '
+            'back through a SQL tokenizer (a doubled quote stands for one) as exactly the column name and the expressions '
+            'it was built from, for every name and expression (quotes, backslashes, unicode, SQL fragments); quoting is '
+            'injective; (b) over the shared model of baseconstraints.py: constraints discovered from a column verify against '
+            'it (C01 closure) and, for each perturbation the property lists (below min, above max, shorter, longer, new '
+            'category, duplicate, extra null, unmatched string, wrong sign), the table with the added row fails that '
+            'constraint. The database calculator (aggregates evaluated by SQLite) is tied by running discover_db_table and '
+            'verify_db_table on generated SQLite tables, original and perturbed, against the model; the tokenizer model is '
+            'tied by letting SQLite read every generated name and literal back. The property itself is evaluated on the '
+            'public API for every generated table and up to four perturbations each.',
+            'Trusted: Lean kernel; SQLite (aggregates, tokenizer) not modelled; only the sqlite branches are exercised. '
+            'No open findings; three fixed.',
+            'DESIGN.md 4 C08'),
     'C10': ('Lean 4 theorems over a model of the regeneration decision + model/implementation correspondence',
             'Kernel-checked theorems: over every history of set_regeneration calls the decision for a kind is the last '
             'setting for it, else the last setting for all kinds, else no; kinds named on a command line (C19 meaning) '
